@@ -207,7 +207,13 @@ func (r *DaemonRPC) PinLsCid(ctx context.Context, in *api.Pin, out *api.IPFSPinS
 	if d.FailLs {
 		return errInjected
 	}
-	if s, ok := d.Table[in.Cid.String()]; ok {
+	// the connector asks "pin ls --type=<mode of the pin>": a CID held in
+	// another mode (or only indirectly) is reported as not pinned
+	want := api.IPFSPinStatusRecursive
+	if in.MaxDepth == 0 {
+		want = api.IPFSPinStatusDirect
+	}
+	if s, ok := d.Table[in.Cid.String()]; ok && s == want {
 		*out = s
 	} else {
 		*out = api.IPFSPinStatusUnpinned
